@@ -52,12 +52,20 @@ Definition s_free (lcache : N) (st : sst) (ch : schunk) : bool * sst :=
   | None => (false, st)
   end.
 
-Inductive sop := SAl | SFr (k : N).
-Record sstate := mkSSt { ss_p : sst; ss_live : list schunk }.
+(* how often serial x occurs in a list of chunks *)
+Fixpoint occ (x : N) (l : list schunk) : N :=
+  match l with [] => 0 | ch :: t => (if fst ch =? x then 1 else 0) + occ x t end.
+
+(* SDbl: deallocate_internal once more on (a copy of the record of) the chunk given back by the most recent guard
+   drop, provided it has not been handed out again - a double free.  Clients cannot do this (the RAII guard owns the
+   chunk); the harness does it through the cfg(zipora_verif) hook. *)
+Inductive sop := SAl | SFr (k : N) | SDbl.
+Record sstate := mkSSt { ss_p : sst; ss_live : list schunk; ss_last : option schunk }.
 
 (* observation after every operation: the result (allocation: serial, generation; guard drop: 0 / None when
-   deallocate_internal reported an error), then the whole bookkeeping state read through the inspectors:
-   local cache (length, serials top first), shared stack (length, serials top first), size of the active table *)
+   deallocate_internal reported an error; double free: 0 when accepted / None when reported), then the whole
+   bookkeeping state read through the inspectors: local cache (length, serials top first), shared stack (length,
+   serials top first), size of the active table *)
 Definition dump (st : sst) : list (option Z) :=
   [Some (Z.of_N (nlen (sc_cache st)))] ++ map (fun ch : schunk => Some (Z.of_N (fst ch))) (sc_cache st) ++
   [Some (Z.of_N (nlen (sc_stack st)))] ++ map (fun ch : schunk => Some (Z.of_N (fst ch))) (sc_stack st) ++
@@ -66,7 +74,7 @@ Definition dump (st : sst) : list (option Z) :=
 Definition s_step (lcache : N) (s : sstate) (o : sop) : sstate * list (option Z) :=
   match o with
   | SAl => let '(ch, p') := s_alloc (ss_p s) in
-           (mkSSt p' (ss_live s ++ [ch]), [Some (Z.of_N (fst ch)); Some (Z.of_N (snd ch))] ++ dump p')
+           (mkSSt p' (ss_live s ++ [ch]) (ss_last s), [Some (Z.of_N (fst ch)); Some (Z.of_N (snd ch))] ++ dump p')
   | SFr k =>
       match ss_live s with
       | [] => (s, [])
@@ -74,7 +82,16 @@ Definition s_step (lcache : N) (s : sstate) (o : sop) : sstate * list (option Z)
           let i := N.to_nat (k mod nlen (ss_live s)) in
           let ch := nth i (ss_live s) (0, 0) in
           let '(ok, p') := s_free lcache (ss_p s) ch in
-          (mkSSt p' (remove_nth i (ss_live s)), (if ok then Some 0%Z else None) :: dump p')
+          (mkSSt p' (remove_nth i (ss_live s)) (Some ch), (if ok then Some 0%Z else None) :: dump p')
+      end
+  | SDbl =>
+      match ss_last s with
+      | Some ch =>
+          if occ (fst ch) (ss_live s) =? 0 then
+            let '(ok, p') := s_free lcache (ss_p s) ch in
+            (mkSSt p' (ss_live s) None, (if ok then Some 0%Z else None) :: dump p')
+          else (s, [])
+      | None => (s, [])
       end
   end.
 Fixpoint s_run (lcache : N) (s : sstate) (ops : list sop) : sstate * list (option Z) :=
@@ -83,10 +100,7 @@ Fixpoint s_run (lcache : N) (s : sstate) (ops : list sop) : sstate * list (optio
   | o :: t => let '(s1, r) := s_step lcache s o in
               let '(s2, rs) := s_run lcache s1 t in (s2, r ++ rs)
   end.
-Definition s_start : sstate := mkSSt s_init [].
+Definition s_start : sstate := mkSSt s_init [] None.
 Definition s_final (lcache : N) (ops : list sop) : sstate := fst (s_run lcache s_start ops).
 Definition s_observe (lcache : N) (ops : list sop) : list (option Z) := snd (s_run lcache s_start ops).
 
-(* how often serial x occurs in a list of chunks *)
-Fixpoint occ (x : N) (l : list schunk) : N :=
-  match l with [] => 0 | ch :: t => (if fst ch =? x then 1 else 0) + occ x t end.
